@@ -412,6 +412,18 @@ func normCond(v ssa.Value, taken bool) (ssa.Value, bool) {
 			v, taken = u.X, !taken
 			continue
 		}
+		// a boolean kept in a local cell (a named result spilled because of a defer,
+		// `if set = a > b; set {…}`): the condition is the value last stored before the load
+		if u, ok := v.(*ssa.UnOp); ok && u.Op == token.MUL {
+			if al, isA := u.X.(*ssa.Alloc); isA && !al.Heap {
+				if sv := LastStoreBefore(al, u); sv != nil && sv != v {
+					if _, isBool := sv.Type().Underlying().(*types.Basic); isBool {
+						v = sv
+						continue
+					}
+				}
+			}
+		}
 		return v, taken
 	}
 }
